@@ -118,7 +118,7 @@ def run(ctx):
     sc.loglevel_check(ctx, recs, ("reach",), 25 if ctx.quick else 250, "c04")
     sc.optimize_check(ctx, recs, ("reach",), 25 if ctx.quick else 250, "c04")
     sc.resolve_check(ctx, recs, ("reach",), 30 if ctx.quick else 300, "c04")
-    sc.late_edit_check(ctx, recs, ("reach",), 20 if ctx.quick else 200, "c04")
+    sc.late_edit_check(ctx, recs, ("reach",), 40 if ctx.quick else 300, "c04")
     check(ctx, recs)
     known_k1(ctx)
 
